@@ -1,9 +1,9 @@
-\* C14 M (HEX/SREC): RoundTrip and Detect (every single-character substitution of every line) at small scope
+\* C14 M (HEX/SREC): RoundTrip and Detect (every single-character substitution of every line) at larger scope (thorough tier)
 CONSTANTS
   Dev = ""
   Fmts = {"hex", "srec"}
-  Seeds = {5}
-  MaxRecs = 2
+  Seeds = {5, 300, 4000}
+  MaxRecs = 3
   AllowMixed = TRUE
   NCorrupt = 0
   Lens = {0, 1, 3}
